@@ -351,6 +351,14 @@ def check_polar(ctx, rules=("METRIC", "ANGLES", "DIV0")):
             t = s.targets[0] if isinstance(s, ast.Assign) else s.target
             if isinstance(t, ast.Name) and s.value.args and U(s.value.args[0]) == diff_name:
                 dist_name = t.id
+                if "METRIC" in rules and dv:
+                    # on every path the vector whose norm is taken is the periodic difference vector (no shortcut for special origins)
+                    dnode = fv.node_of(si.statement(dv[0]))
+                    other = [d for d in fv.defs_reaching(diff_name, s) if d is not dnode]
+                    ctx.decide(not other, "METRIC", site + ":all-paths", (fi, other[0].stmt) if other and other[0].stmt is not None else (fi, s),
+                               "the difference vector has a single definition: grid.difference_vector on every path",
+                               f"on some path the vector to the cells is `{U(other[0].stmt)[:80] if other and other[0].stmt is not None else '?'}` instead of grid.difference_vector(...): "
+                               "for those origins the periodic images are ignored, so a droplet at that position is not rendered across the boundary")
                 ax = kwarg(s.value, "axis")
                 if "METRIC" in rules:
                     ctx.decide(ax is not None and U(ax) == "-1", "METRIC", site + ":norm", (fi, s), "distance = Euclidean norm over the last axis",
